@@ -254,6 +254,7 @@ Fixpoint shiftable (t : tok) : bool :=
   | THarmonyBegin | THarmonyEnd _ _ _ | TChannel _ | TVoice _ | TKeyFlag _ | TKeyShift _ | TTrackKey _ | TComment
   | TTimeSignature _ | TMeasureShift _ | TTempo _ | TVAdd _ | TQAdd _ | TTieMode _
   | TCC _ _ | TPitchBend _ _ | TRpnCmd _ _ _ _ | TRpnDirect _ _ => true     (* events at the pointer of the current track *)
+  | TMetaText _ _ => true                                                     (* a text meta event at the pointer of the current track *)
   | _ => false
   end.
 
@@ -664,6 +665,7 @@ Section StepShift.
     - (* TRpnDirect *) unfold exec_rpn_direct, runtime_error. change (s_lineno s') with (s_lineno s).
       destruct args as [|a [|b [|c [|d l]]]]; try apply add_log_shifted_ok.
       apply add_events_shift. destruct nrpn; reflexivity.
+    - (* TMetaText *) destruct (_ && _); [|reflexivity]. apply add_events_shift. reflexivity.
   Qed.
   End One.
 
